@@ -414,9 +414,9 @@ prop(
      {"lane": "edit", "n_quick": 1500, "n_thorough": 15000},
      {"lane": "full", "n_quick": 2000, "n_thorough": 40000}],
     "lane edit (secondary: reads after edits surface in the serialised output); lane attrs: one start tag (all attribute syntaxes, odd characters, '/' placements, upper case, non-ASCII bytes, html/svg/math context, cut anywhere) through the real HtmlRewriter (element handler: tag_name, attributes(), get/has_attribute, is_self_closing, can_have_content, namespace_uri, locations; then, in about 45 % of the cases, an edit script set_attribute / remove_attribute / set_tag_name — attribute-less tags, duplicates, case variants, set-then-remove, remove-then-set, rejected names — after which tag_name, attributes() and the queries are read again) vs model + Spec.Attrs; oracle: independent WHATWG attribute parser cross-checked with html5ever, and an independent list algebra for the reads after edits (tag edit-read)",
-    ["the byte-level API model presumes the read accessors decode bijectively (windows-1252 in the lane); BOM-prefixed names/values are a finding (no edit scripts on such tags)",
+    ["the byte-level API model presumes the read accessors decode bijectively (windows-1252 in the lane; exact for every byte string since the accessors decode without BOM handling)",
      "serialisation of an edited tag is C07's (package edit), not read back here"],
-    level_text="Lean 4 theorems for every input byte string: the lexer on the generated table follows Spec.Attrs (C16_outline, unfinished, across a chunk break), emit_tag hands exactly that outline to the sink (C16_emit_tag), lookups/context on the token (C16_lookup, C16_context), reads after edits on the same token (C16_reads_after_edits: set -> first match replaced or appended, remove -> every match gone, rename -> lower-cased new name; materialising the list changes no read; rejected edits change nothing); F8 (lookup and remove_attribute) / F9 refuted statements.",
+    level_text="Lean 4 theorems for every input byte string: the lexer on the generated table follows Spec.Attrs (C16_outline, unfinished, across a chunk break), emit_tag hands exactly that outline to the sink (C16_emit_tag), lookups/context on the token (C16_lookup, C16_context), reads after edits on the same token (C16_reads_after_edits: set -> first match replaced or appended, remove -> every match gone, rename -> lower-cased new name; materialising the list changes no read; rejected edits change nothing); lookups and remove_attribute accept EVERY name, also those the setter rejects (C16_lookup_full, C16_remove_full: the former F8 counterexamples are now theorems); F9 refuted statement.",
     level_note="Trusted: Lean kernel; Spec.Attrs (WHATWG reading); model tied by lanes lex and attrs.",
     technique="Lean 4 proof (symbolic evaluation of the DSL interpreter per state and byte class + induction over the input; list algebra for the edit API) + correspondence lane",
     design_ref="DESIGN.md section 4 C16",
